@@ -11,6 +11,12 @@ IDS = [b"nullPointer", b"uninitvar", b"zerodiv", b"memleak", b"unmatchedSuppress
 ID_PATTERNS = [b"nullPointer", b"null*", b"*Pointer", b"**Pointer", b"*", b"**", b"uninit*", b"*var", b"*i*",
                b"zerodiv", b"memleak", b"unmatchedSuppression", b"a", b"a*", b"*b", b"a*b", b"**b", b"*a*", b""]
 FILES = [b"a.c", b"b.c", b"x.h", b""]
+# finding / analysed file names (PathMatch::match is C31's pm_model in the model): plain, with
+# directories, with . and .. components, absolute
+PATHS = [b"a.c", b"b.c", b"x.h", b"src/a.c", b"src/sub/b.c", b"src/../a.c", b"./b.c", b"inc/x.h", b"/abs/a.c", b"src/./sub/../a.c"]
+# suppression file names: the above (local) and wildcard patterns (global)
+FILE_PATTERNS = [b"", b"a.c", b"b.c", b"x.h", b"src/a.c", b"sub/b.c", b"src/sub/b.c", b"src/../a.c", b"./b.c", b"/abs/a.c", b"src/",
+                 b"*.c", b"src/*", b"*/a.c", b"**/b.c", b"src/**", b"?.c", b"a.*", b"*", b"inc/*.h", b"src/*/b.c", b"s?c/a.c", b"**.h"]
 SYMS = [b"", b"foo\n", b"foo\nbar\n", b"bar", b"f\n\nb\n", b"\n"]
 SYM_PATTERNS = [b"", b"foo", b"f*", b"*?", b"b?r", b"*", b"**r", b"?*o", b"x"]
 MACROS = [b"M", b"N", b"ASSERT"]
@@ -58,7 +64,7 @@ def gen_supp(rng, for_list=False, flags=False):
     sid = rng.choice(ID_PATTERNS)
     if for_list and sid == b"":
         sid = b"*"
-    f = rng.choice(FILES)
+    f = rng.choice(FILES) if rng.random() < 0.4 else rng.choice(FILE_PATTERNS)
     line = rng.choice([-1, -1, 1, 2, 3])
     bg = rng.choice([-1, 1, 2])
     en = rng.choice([-1, 2, 3, 4])
@@ -76,7 +82,7 @@ def gen_emsg(rng, plain_symbols=False, macros=True):
     """fields: hash id file line symbols nmacros macros..."""
     ms = sorted(set(rng.choices(MACROS, k=rng.randint(0, 2)))) if macros and rng.random() < 0.5 else []
     syms = rng.choice([b"", b"foo\n", b"foo\nbar\n", b"bar\n"]) if plain_symbols else rng.choice(SYMS)
-    return [rng.choice([0, 7, 9]), rng.choice(IDS[:7] if plain_symbols else IDS), rng.choice(FILES[:3]),
+    return [rng.choice([0, 7, 9]), rng.choice(IDS[:7] if plain_symbols else IDS), rng.choice(FILES[:3]) if rng.random() < 0.4 else rng.choice(PATHS),
             rng.choice([1, 2, 3, 4]), syms, len(ms)] + ms
 
 
